@@ -273,6 +273,7 @@ def families(tier):
     for n in (2, 3):
         fams.append(('arc-bezier-pairing-%d' % n, 'vf.props.c11', 'fam_arc_bezier_pairing', {'nroots': n}))
     fams.append(('line-point_to_t', 'vf.props.c11arc', 'fam_line_point_to_t', {}))
+    fams.append(('arc-arc-circles-all-in', 'vf.props.c11arcarc', 'fam_arc_arc_circles', {'tvals': (0.5, 0.5, 0.5, 0.5)}))
     for sg in (1, -1):
         fams.append(('arc-phase2t-%s' % ('ccw' if sg > 0 else 'cw'), 'vf.props.c11arc', 'fam_phase2t', {'sign': sg}))
     # Arc.point_to_t answers None only for points of the ellipse that are not on the arc (vf/props/c11arc.py)
